@@ -15,7 +15,10 @@ AgreeAll == \A mx \in 3..40 : \A k \in 1..8 : \A y \in 0..mx :
              /\ EL(mx)!Pos(y) = PosHere
              /\ EL(mx)!T64(k) = T64(k)
 \* and with this configuration's own MAX the very operators of SerfEventOps
-AgreeHere == \A k \in 1..8 : \A y \in 0..MAX : EL(MAX)!SlotIx(k, y) = SlotIx(k, y) /\ EL(MAX)!Pos(y) = Pos(y)
+AgreeHere == \A k \in 1..8 : \A y \in 0..MAX :
+                /\ EL(MAX)!SlotIx(k, y) = SlotIx(k, y) /\ EL(MAX)!Pos(y) = Pos(y)
+                /\ EL(MAX)!Wrap(y + 1) = Wrap(y + 1)
+                /\ \A z \in 0..MAX : EL(MAX)!TooOld(k, y, z) = TooOld(k, y, z)
 Init == x = 0
 Next == UNCHANGED x
 =============================================================================
